@@ -664,7 +664,7 @@ pub fn parse_h1_response(buf: &[u8]) -> Result<Option<H1Response>, String> {
     let mut off = 0;
     let mut interim = vec![];
     loop {
-        let mut headers = [httparse::EMPTY_HEADER; 64];
+        let mut headers = [httparse::EMPTY_HEADER; 256];
         let mut r = httparse::Response::new(&mut headers);
         match r.parse(&buf[off..]) {
             Ok(httparse::Status::Partial) => return Ok(None),
